@@ -194,6 +194,12 @@ theorem step_good {R h} (s : St R h) (op : Op) (ho : op.InR R) : Good R h (step 
         simp only [optErr]; split <;> simp_all
       | setAttr x i v => exact good_setAttr s x i v (ho.1 x (by simp [Op.objs]))
       | newId x => exact good_newId s x (ho.1 x (by simp [Op.objs]))
+      | mergeAttrs x t record =>
+        have := good_mergeOp s x t record (ho.1 x (by simp [Op.objs]))
+        simp only [optErr]; split <;> simp_all
+      | unmergeAttrs x =>
+        have := good_unmergeOp s x (ho.1 x (by simp [Op.objs]))
+        simp only [optErr]; split <;> simp_all
 
 /-- Every operation of the list is applied to objects and lists of the region. -/
 def OpsIn (R : Reg) (ops : List Op) : Prop := ∀ op, op ∈ ops → op.InR R
